@@ -1,9 +1,157 @@
-/- C05 — property theorems (only). -/
+/- C05 — property theorems (only). Helper lemmas live in `Proofs/*`, the XSD
+lexical relations in `Spec/Xsd.lean`. -/
 import XsdataModel.Conv.Factory
+import XsdataModel.Spec.Xsd
+import XsdataModel.Proofs.IntL
+import XsdataModel.Proofs.Codec
 
 namespace Props.C05
-open Py Xs.Conv
+open Py Xs.Conv Xs.Spec
 
-theorem placeholder : boolSerialize true = Tables.boolTrueStr := rfl
+/-! ## xs:boolean -/
+
+/-- what `BoolConverter.serialize` writes is an xs:boolean lexical form of the value -/
+theorem bool_ser_valid (b : Bool) : XsdBoolean (boolSerialize b) b := by
+  cases b <;> (unfold XsdBoolean; decide)
+
+/-- every xs:boolean lexical form, with any XSD white space around it, is read
+as the value XSD assigns (for every Unicode environment) -/
+theorem bool_accepts (e : Env) (pre post s : Str) (v : Bool)
+    (hpre : AllXsdSpace pre) (hpost : AllXsdSpace post) (h : XsdBoolean s v) :
+    boolDeserialize e (pre ++ s ++ post) = some v := by
+  have ns : ∀ c, isAscii c = true → isAsciiSpace c = false → e.isSpace c = false := by
+    intro c h1 h2; rw [isSpace_ascii e c h1]; exact h2
+  have ht : Tight e.isSpace s := by
+    unfold XsdBoolean boolLex at h
+    simp only [List.mem_cons, Prod.mk.injEq, List.mem_nil_iff, or_false] at h
+    rcases h with ⟨rfl, _⟩ | ⟨rfl, _⟩ | ⟨rfl, _⟩ | ⟨rfl, _⟩
+    · exact Or.inr ⟨⟨'t', _, rfl, ns _ (by decide) (by decide)⟩, ⟨"tru".toList, 'e', rfl, ns _ (by decide) (by decide)⟩⟩
+    · exact Or.inr ⟨⟨'f', _, rfl, ns _ (by decide) (by decide)⟩, ⟨"fals".toList, 'e', rfl, ns _ (by decide) (by decide)⟩⟩
+    · exact Or.inr ⟨⟨'1', _, rfl, ns _ (by decide) (by decide)⟩, ⟨[], '1', rfl, ns _ (by decide) (by decide)⟩⟩
+    · exact Or.inr ⟨⟨'0', _, rfl, ns _ (by decide) (by decide)⟩, ⟨[], '0', rfl, ns _ (by decide) (by decide)⟩⟩
+  unfold boolDeserialize
+  rw [strip_xsd_pad e pre s post hpre hpost ht]
+  unfold XsdBoolean boolLex at h
+  simp only [List.mem_cons, Prod.mk.injEq, List.mem_nil_iff, or_false] at h
+  rcases h with ⟨rfl, rfl⟩ | ⟨rfl, rfl⟩ | ⟨rfl, rfl⟩ | ⟨rfl, rfl⟩ <;> decide
+
+/-- bool round trip -/
+theorem bool_rt (e : Env) (b : Bool) : boolDeserialize e (boolSerialize b) = some b := by
+  have := bool_accepts e [] [] (boolSerialize b) b (by intro c h; cases h) (by intro c h; cases h)
+    (bool_ser_valid b)
+  simpa using this
+
+/-! ## xs:integer -/
+
+/-- `str(i)` is an xs:integer lexical form denoting `i` -/
+theorem int_ser_valid (i : Int) : XsdInteger (intSerialize i) i := by
+  obtain ⟨hd, hne, hv⟩ := natStr_spec i.natAbs
+  unfold intSerialize intStr
+  by_cases h : i < 0
+  · refine ⟨.minus, natStr i.natAbs, by simp [h, Sign.str], hne, hd, ?_⟩
+    simp only [Sign.neg, if_true, digitsNat, hv, Int.ofNat_eq_natCast]
+    omega
+  · refine ⟨.none, natStr i.natAbs, by simp [h, Sign.str], hne, hd, ?_⟩
+    simp only [Sign.neg, digitsNat, hv, Int.ofNat_eq_natCast]
+    simp
+    omega
+
+/-- every xs:integer lexical form (`[+-]?[0-9]+`, any number of leading zeros,
+any XSD white space around it) is read as the integer it denotes -/
+theorem int_accepts (e : Env) (pre post s : Str) (v : Int)
+    (hpre : AllXsdSpace pre) (hpost : AllXsdSpace post) (h : XsdInteger s v) :
+    intDeserialize e (pre ++ s ++ post) = some v := by
+  obtain ⟨sg, ds, rfl, hne, hd, rfl⟩ := h
+  exact pyIntC_signed e pre post sg ds hpre hpost hne hd
+
+/-- int round trip, for every integer (no size bound in the model; CPython adds
+the 4300-digit limit) -/
+theorem int_rt (e : Env) (i : Int) : intDeserialize e (intSerialize i) = some i := by
+  have := int_accepts e [] [] (intSerialize i) i (by intro c h; cases h) (by intro c h; cases h)
+    (int_ser_valid i)
+  simpa using this
+
+/-! ## xs:hexBinary and xs:base64Binary -/
+
+/-- `format="base16"`: the output is an xs:hexBinary lexical form of the octets -/
+theorem hex_ser_valid (k : BytesKind) (bs : Bytes) (h : AllBytes bs) :
+    ∃ s, bytesSerialize k bs (some Tables.fmtBase16) = some s ∧ XsdHexBinary s bs := by
+  refine ⟨hexEncode bs, ?_, hexEncode_valid bs h⟩
+  simp [bytesSerialize]
+
+/-- every xs:hexBinary lexical form (either letter case), with white space
+anywhere around or inside, is decoded to the octets it denotes -/
+theorem hex_accepts (e : Env) (s s' : Str) (bs : Bytes) (h : XsdHexBinary s bs)
+    (hws : removeWs e s' = s) :
+    bytesDeserialize e s' (some Tables.fmtBase16) = some bs := by
+  simp [bytesDeserialize, hws, unhexlify_lex s bs h]
+
+theorem removeWs_noSpace (e : Env) (s : Str) (h : ∀ c ∈ s, e.isSpace c = false) : removeWs e s = s := by
+  unfold removeWs
+  rw [List.filter_eq_self]
+  intro c hc
+  simp [h c hc]
+
+/-- base16 round trip for every octet string -/
+theorem hex_rt (e : Env) (k : BytesKind) (bs : Bytes) (h : AllBytes bs) :
+    ∃ s, bytesSerialize k bs (some Tables.fmtBase16) = some s ∧
+      bytesDeserialize e s (some Tables.fmtBase16) = some bs := by
+  obtain ⟨s, hs, hv⟩ := hex_ser_valid k bs h
+  refine ⟨s, hs, ?_⟩
+  have hu := unhexlify_lex s bs hv
+  -- the encoder never emits white space: decoding its output directly succeeds, so no
+  -- character was dropped by `removeWs`
+  have hnospace : ∀ c ∈ s, e.isSpace c = false := by
+    have : s = hexEncode bs := by simpa [bytesSerialize] using hs.symm
+    subst this
+    clear hs hv hu
+    induction bs with
+    | nil => intro c hc; cases hc
+    | cons b bs ih =>
+      have hb : b < 256 := h b (by simp)
+      have hd : ∀ v, v < 16 → e.isSpace (hexDigit v) = false := by
+        intro v hv
+        have h1 : isAscii (hexDigit v) = true := by revert v; decide
+        have h2 : isAsciiSpace (hexDigit v) = false := by revert v; decide
+        rw [isSpace_ascii e _ h1]; exact h2
+      intro c hc
+      simp only [hexEncode, List.mem_cons] at hc
+      rcases hc with rfl | rfl | hc
+      · exact hd _ (by omega)
+      · exact hd _ (by omega)
+      · exact ih (fun x hx => h x (by simp [hx])) c hc
+  exact hex_accepts e s s bs hv (removeWs_noSpace e s hnospace)
+
+/-- `format="base64"`: the output is the canonical xs:base64Binary form of the octets -/
+theorem b64_ser_valid (bs : Bytes) (h : AllBytes bs) :
+    ∃ s, bytesSerialize .plain bs (some Tables.fmtBase64) = some s ∧ XsdBase64 s bs := by
+  refine ⟨b64Encode bs, ?_, b64Encode_valid bs h⟩
+  have hne : (Tables.fmtBase64 = Tables.fmtBase16) = False := by decide
+  simp [bytesSerialize, hne]
+
+/-- every canonical xs:base64Binary form, with line breaks / blanks anywhere
+(as MIME encoders insert them), is decoded to the octets it denotes -/
+theorem b64_accepts (e : Env) (s s' : Str) (bs : Bytes) (h : XsdBase64 s bs)
+    (hws : removeWs e s' = s) :
+    bytesDeserialize e s' (some Tables.fmtBase64) = some bs := by
+  have hne : (some Tables.fmtBase64 = some Tables.fmtBase16) = False := by decide
+  simp [bytesDeserialize, hws, b64Decode_lex s bs h, hne]
+
+/-- base64 round trip for every octet string, also when the written form is
+re-wrapped with white space before it is read -/
+theorem b64_rt (e : Env) (bs : Bytes) (h : AllBytes bs) (s' : Str)
+    (hws : removeWs e s' = b64Encode bs) :
+    bytesSerialize .plain bs (some Tables.fmtBase64) = some (b64Encode bs) ∧
+      bytesDeserialize e s' (some Tables.fmtBase64) = some bs := by
+  obtain ⟨s, hs, hv⟩ := b64_ser_valid bs h
+  have : s = b64Encode bs := by
+    have h2 : bytesSerialize .plain bs (some Tables.fmtBase64) = some (b64Encode bs) := by
+      have hne : (Tables.fmtBase64 = Tables.fmtBase16) = False := by decide
+      simp [bytesSerialize, hne]
+    rw [h2] at hs; exact (Option.some.inj hs).symm
+  subst this
+  exact ⟨hs, b64_accepts e _ s' bs hv hws⟩
+
+example : AllBytes [0, 255, 65] := by intro b hb; simp at hb; omega
 
 end Props.C05
